@@ -186,7 +186,7 @@ Proof. reflexivity. Qed.
 (* errors.As finds the first service error of the chain, depth first, left to right *)
 Lemma find_serr_hd e : find_serr e = hd_error (serrs e).
 Proof.
-  induction e as [m|c|w e IH|a IHa b IHb]; simpl; try reflexivity.
+  induction e as [m|sc sm sd|c|w e IH|a IHa b IHb]; simpl; try reflexivity.
   - exact IH.
   - rewrite IHa, IHb. destruct (serrs a); reflexivity.
 Qed.
@@ -260,3 +260,146 @@ Qed.
 Lemma grpc_encode_back fid e :
   core_of_resp (snd (grpc_encode fid e)) = drop_field (encoded_core fid e).
 Proof. rewrite grpc_encode_spec. reflexivity. Qed.
+
+(* ---- grpc.EncodeError in full (status inputs) ---- *)
+
+Lemma find_status_hd e : find_status e = hd_error (statuses e).
+Proof.
+  induction e as [m|sc sm sd|c|w e IH|a IHa b IHb]; simpl; try reflexivity.
+  - exact IH.
+  - rewrite IHa, IHb. destruct (statuses a); reflexivity.
+Qed.
+
+Lemma statuses_wrap_all ws e : statuses (wrap_all ws e) = statuses e.
+Proof. induction ws as [|w ws IH]; simpl; [reflexivity|exact IH]. Qed.
+
+Lemma grpc_error_response_spec fid e :
+  grpc_error_response fid e = resp_of_core (encoded_core fid e).
+Proof.
+  unfold grpc_error_response, encoded_core. rewrite find_serr_hd. destruct (serrs e); reflexivity.
+Qed.
+
+Definition table_code (c : core) : nat :=
+  if ctemporary c then 14 else if ctimeout c then 4 else if cfault c then 13 else 2.
+
+Lemma code_num_flags c : code_num (code_of_flags c) = table_code c.
+Proof. unfold code_of_flags, table_code. destruct (ctemporary c), (ctimeout c), (cfault c); reflexivity. Qed.
+
+(* closed form of EncodeError over the spec-side lists *)
+Definition grpc_full_closed (fid : string) (e : eshape) : gstatus :=
+  let er := DResp (resp_of_core (encoded_core fid e)) in
+  match statuses e with
+  | s :: _ => {| gcode := gcode s; gmsg := if is_status e then gmsg s else error_string e;
+                 gdetails := (gdetails s ++ [er])%list |}
+  | [] => {| gcode := match serrs e with c :: _ => table_code c | [] => 2 end;
+             gmsg := error_string e; gdetails := [er] |}
+  end.
+
+Lemma grpc_full_spec fid e : grpc_encode_full fid e = grpc_full_closed fid e.
+Proof.
+  unfold grpc_encode_full, grpc_full_closed, from_error.
+  rewrite grpc_error_response_spec, find_status_hd, find_serr_hd.
+  destruct (statuses e) as [|s r]; simpl.
+  - destruct (serrs e) as [|c r']; simpl; [reflexivity|]. now rewrite code_num_flags.
+  - reflexivity.
+Qed.
+
+Lemma grpc_full_extends fid e :
+  statuses e = [] ->
+  grpc_encode_full fid e =
+  {| gcode := code_num (fst (fst (grpc_encode fid e))); gmsg := snd (fst (grpc_encode fid e));
+     gdetails := [DResp (snd (grpc_encode fid e))] |}.
+Proof.
+  intro H. unfold grpc_encode_full, from_error, grpc_encode, grpc_error_response.
+  rewrite find_status_hd, H. simpl. destruct (find_serr e); reflexivity.
+Qed.
+
+
+Lemma wf_find_status e s : wf_shape e = true -> find_status e = Some s -> gcode s <> 0.
+Proof.
+  revert s. induction e as [m|sc sm sd|c|w e IH|a IHa b IHb]; simpl; intros s W F; try discriminate.
+  - injection F as <-. simpl. intro Z. subst sc. discriminate.
+  - exact (IH s W F).
+  - apply andb_prop in W. destruct W as [Wa Wb].
+    destruct (find_status a) as [sa|] eqn:Fa.
+    + injection F as <-. exact (IHa sa Wa eq_refl).
+    + exact (IHb s Wb F).
+Qed.
+
+Lemma grpc_full_never_ok fid e : wf_shape e = true -> gcode (grpc_encode_full fid e) <> 0.
+Proof.
+  intro W. unfold grpc_encode_full, from_error.
+  destruct (find_status e) as [s|] eqn:F; simpl.
+  - exact (wf_find_status e s W F).
+  - destruct (find_serr e) as [c|]; [|discriminate].
+    rewrite code_num_flags. unfold table_code.
+    destruct (ctemporary c), (ctimeout c), (cfault c); discriminate.
+Qed.
+
+Lemma grpc_full_decode fid e :
+  grpc_decode (grpc_encode_full fid e) =
+  match statuses e with
+  | s :: _ => match gdetails s with d :: _ => Some d | [] => Some (DResp (resp_of_core (encoded_core fid e))) end
+  | [] => Some (DResp (resp_of_core (encoded_core fid e)))
+  end.
+Proof.
+  rewrite grpc_full_spec. unfold grpc_full_closed, grpc_decode.
+  destruct (statuses e) as [|s r]; simpl; [reflexivity|]. destruct (gdetails s); reflexivity.
+Qed.
+
+Lemma grpc_full_roundtrip fid e :
+  (forall s, hd_error (statuses e) = Some s -> gdetails s = []) ->
+  grpc_decode (grpc_encode_full fid e) = Some (DResp (resp_of_core (encoded_core fid e))).
+Proof.
+  intro H. rewrite grpc_full_decode. destruct (statuses e) as [|s r]; [reflexivity|].
+  rewrite (H s eq_refl). reflexivity.
+Qed.
+
+Definition refute_core : core :=
+  {| cname := "not_found"; cid := "i1"; cfield := None; cmsg := "m";
+     ctimeout := false; ctemporary := false; cfault := false |}.
+Definition refute_shape : eshape := EJoin (EStatus 5 "missing" [DOther "x"]) (EServ refute_core).
+
+Lemma grpc_full_roundtrip_fails :
+  exists fid e, serrs e <> [] /\
+    grpc_decode (grpc_encode_full fid e) <> Some (DResp (resp_of_core (encoded_core fid e))).
+Proof. exists "", refute_shape. split; vm_compute; discriminate. Qed.
+
+(* encoding an already encoded status again, any number of times *)
+
+Lemma reencode_step fid s :
+  reencode fid s =
+  {| gcode := gcode s; gmsg := gmsg s;
+     gdetails := (gdetails s ++ [DResp (resp_of_core (fault_core (status_string (gcode s) (gmsg s)) fid))])%list |}.
+Proof. reflexivity. Qed.
+
+Lemma hd_error_app_nonempty {A} (l r : list A) : l <> [] -> hd_error (l ++ r)%list = hd_error l.
+Proof. destruct l; [congruence|reflexivity]. Qed.
+
+Lemma grpc_full_details_nonempty fid e : gdetails (grpc_encode_full fid e) <> [].
+Proof.
+  unfold grpc_encode_full. destruct (from_error e); simpl; [|discriminate].
+  intro H. apply app_eq_nil in H. destruct H as [_ H]. discriminate.
+Qed.
+
+Lemma reencode_iter fid n s :
+  gdetails s <> [] ->
+  let s' := Nat.iter n (reencode fid) s in
+  gcode s' = gcode s /\ gmsg s' = gmsg s /\ grpc_decode s' = grpc_decode s /\ gdetails s' <> [].
+Proof.
+  intro H. induction n as [|n IH]; simpl.
+  - repeat split; assumption.
+  - destruct IH as (Hc & Hm & Hd & Hn). rewrite reencode_step. simpl.
+    repeat split; try assumption.
+    + unfold grpc_decode. simpl. rewrite hd_error_app_nonempty by assumption. exact Hd.
+    + intro Z. apply app_eq_nil in Z. destruct Z as [Z _]. contradiction.
+Qed.
+
+Lemma grpc_full_reencode fid fid' n e :
+  let s := grpc_encode_full fid e in
+  let s' := Nat.iter n (reencode fid') s in
+  gcode s' = gcode s /\ gmsg s' = gmsg s /\ grpc_decode s' = grpc_decode s.
+Proof.
+  intros s s'. destruct (reencode_iter fid' n s (grpc_full_details_nonempty fid e)) as (A & B & C & _).
+  repeat split; assumption.
+Qed.
